@@ -7,7 +7,7 @@
    computes the idler waist position from the OLD idler; without that hypothesis the statement is refuted,
    Findings/C20_old_idler.v).  After ONE optimisation the hypothesis holds, so optimising twice is always a fixed point. *)
 From Coq Require Import Reals QArith Qreals Lra Lia ZArith String List Bool.
-From SpdVerif Require Import Base.Rx Base.CfgNumOps Model.NumInst Spec.ConfigSpec Gen.ConfigTables Spec.ConfigUnits
+From SpdVerif Require Import Base.Rx Base.CfgNumOps Model.NumInst Spec.ConfigSpec Gen.ConfigTables Gen.ConfigSites Spec.ConfigUnits
   Model.ConfigTypes Model.Config Proofs.C16_round Proofs.C16_stable.
 Import ListNotations.
 Local Open Scope R_scope.
@@ -190,6 +190,15 @@ Section Idempotent.
         repeat split; auto using opt_signal_collinear; try discriminate; try (intros; congruence).
   Qed.
 End Idempotent.
+
+(* FULL STRENGTH for the code as it is now (flags read off the source): the idler waist position is computed from the NEW idler,
+   so optimising is idempotent for EVERY setup.  `discriminate` below is the obligation optimum_waist_sees_old_idler = false. *)
+Definition try_as_optimum_now (K : oracles R) (minpos : R) (s : spdc R) : outcome (spdc R * list nonfinite) :=
+  try_as_optimum R_ops K minpos optimum_idler_sees_old_poling optimum_waist_sees_old_idler s.
+
+Theorem optimum_idempotent_now K minpos s s' nf :
+  collinear_contract K -> try_as_optimum_now K minpos s = Ok (s', nf) -> try_as_optimum_now K minpos s' = Ok (s', nf).
+Proof. intros HK. apply optimum_idempotent; [exact HK | discriminate]. Qed.
 
 (* non-vacuity: a concrete idler-consistent setup that optimises (constant oracles) *)
 Definition ex_K0 : oracles R := {|
